@@ -180,6 +180,8 @@ impl io::Write for ChunkWriter {
     }
     fn flush(&mut self) -> io::Result<()> {
         self.flushes += 1;
+        // counts data handed over after the most recent flush
+        self.writes_after_flush = 0;
         if self.fail_flush {
             Err(io::Error::new(io::ErrorKind::Other, "injected flush failure"))
         } else {
@@ -207,6 +209,8 @@ impl embedded_io::Write for ChunkWriter {
     }
     fn flush(&mut self) -> Result<(), EioError> {
         self.flushes += 1;
+        // counts data handed over after the most recent flush
+        self.writes_after_flush = 0;
         if self.fail_flush {
             Err(EioError(embedded_io::ErrorKind::Other))
         } else {
